@@ -271,3 +271,230 @@ def o_handler_cancel(case, obs):
 
 
 ALL_SCHED = (o_harness, o_time, o_terminated, o_clock, o_driver_events)
+
+
+# ---------------------------------------------------------------- message accounting (C03/C04/C06)
+
+def keep_ok(k, v):
+    if k == "all":
+        return True
+    if k == "even":
+        return v % 2 == 0
+    return v < k[1]
+
+
+def ev(e, v):
+    if e == "in":
+        return v
+    return e[1] if e[0] == "c" else v + e[1]
+
+
+def children(case, kind, m, idx, v):
+    """Messages a handler invocation sends, as reception keys ('H', model, input, payload) /
+    ('P', model, replier, payload), one per accepting connection (sink writes are ('S', sink, payload))."""
+    sp = case["models"][m]
+    if kind == "H":
+        hs = sp.get("handlers", [])
+        script = hs[idx] if idx < len(hs) else []
+    elif kind == "P":
+        rs = sp.get("repliers", [])
+        script = rs[idx][0] if idx < len(rs) else []
+    else:
+        script = sp.get("init", [])
+    out = []
+    for op in script:
+        if op[0] == "snd":
+            x = ev(op[2], v)
+            conns = sp.get("outs", [])
+            for (k, add, tgt) in (conns[op[1]] if op[1] < len(conns) else []):
+                if keep_ok(k, x):
+                    out.append(("H", tgt[1], tgt[2], x + add) if tgt[0] == "m" else ("S", tgt[1], x + add))
+        elif op[0] == "qry":
+            x = ev(op[2], v)
+            reqs = sp.get("reqs", [])
+            for (k, add, mm, rep, radd) in (reqs[op[1]] if op[1] < len(reqs) else []):
+                if keep_ok(k, x):
+                    out.append(("P", mm, rep, x + add))
+    return out
+
+
+def accounting(case, obs, upto=None):
+    """expected receptions (roots + children of every observed invocation) and observed receptions, as
+    Counters, over commands [0, upto).  Only for benches without handler-side scheduling."""
+    from collections import Counter
+    exp, got = Counter(), Counter()
+    n = len(obs) if upto is None else upto
+    pending_se = []
+    for j in range(n):
+        res, t, es = obs[j]
+        if j >= 1:
+            c = case["cmds"][j - 1]
+            if c[0] == "pe":
+                exp[("H", c[1], c[2], c[3])] += 1
+            elif c[0] == "pq":
+                exp[("P", c[1], c[2], c[3])] += 1
+            elif c[0] == "ps":
+                for (k, add, tgt) in case["sources"][c[1]]:
+                    if keep_ok(k, c[2]):
+                        exp[("H", tgt[1], tgt[2], c[2] + add)] += 1
+            elif c[0] in ("se", "ss") and res == "sched:0":
+                prev = obs[j - 1][1]
+                when = c[1][1] if c[1][0] == "a" else prev + c[1][1]
+                pending_se.append([when, c])
+            if c[0] in ("st", "su"):
+                for item in list(pending_se):
+                    when, cc = item
+                    limit = t if kind(res) != "oos" else t - 1
+                    while when <= limit:
+                        if cc[0] == "se":
+                            exp[("H", cc[2], cc[3], cc[4])] += 1
+                            per = cc[6]
+                        else:
+                            for (k, add, tgt) in case["sources"][cc[2]]:
+                                if keep_ok(k, cc[3]):
+                                    exp[("H", tgt[1], tgt[2], cc[3] + add)] += 1
+                            per = cc[5]
+                        if per:
+                            when += per
+                            item[0] = when
+                        else:
+                            pending_se.remove(item)
+                            break
+        for e in es:
+            f = e.split(":")
+            if f[0] == "H":
+                key = ("H", int(f[1]), int(f[2]), int(f[3]))
+            elif f[0] == "P":
+                key = ("P", int(f[1]), int(f[2]), int(f[3]))
+            elif f[0] == "I":
+                for ch in children(case, "I", int(f[1]), 0, 0):
+                    if ch[0] != "S":
+                        exp[ch] += 1
+                continue
+            else:
+                continue
+            got[key] += 1
+            for ch in children(case, key[0], key[1], key[2], key[3]):
+                if ch[0] != "S":
+                    exp[ch] += 1
+    return exp, got
+
+
+def first_fatal(obs):
+    for j, o in enumerate(obs):
+        if kind(o[0]) in FATAL + ("hang", "noinit"):
+            return j
+    return None
+
+
+def o_exactly_once(case, obs):
+    """C03/C04: over a prefix of commands that all returned without a fatal error, the multiset of
+    handler/replier invocations equals the multiset of messages sent to models (roots from the driver
+    and the scheduler + one per accepting connection of every send of every observed invocation):
+    nothing lost, duplicated or invented, and nothing left unprocessed when a call returns Ok."""
+    ff = first_fatal(obs)
+    upto = len(obs) if ff is None else ff
+    exp, got = accounting(case, obs, upto)
+    if exp != got:
+        missing = list((exp - got).elements())[:5]
+        extra = list((got - exp).elements())[:5]
+        return "after %d commands: sent-but-not-processed %s, processed-but-never-sent %s" % (upto - 1, missing, extra)
+    return None
+
+
+def o_deadlock_report(case, obs):
+    """C06: at the first fatal Deadlock/MessageLoss verdict, compare with the per-model accounting
+    pending(m) = messages sent to m - handlers started by m.  Deadlock must list only added models, with
+    1 <= n <= min(capacity, pending); MessageLoss(n) requires pending on added models = 0 and n = pending
+    on never-added mailboxes; if nothing is pending the verdict must not be Deadlock/MessageLoss; if an
+    ADDED model (sub-models included) has pending messages and no sender can be blocked on it... the
+    verdict must be Deadlock."""
+    ff = first_fatal(obs)
+    if ff is None:
+        return None
+    res = obs[ff][0]
+    k = kind(res)
+    if k not in ("dead", "loss"):
+        return None
+    exp, got = accounting(case, obs, ff + 1)
+    from collections import Counter
+    pend = Counter()
+    for key, n in (exp - got).items():
+        pend[key[1]] += n
+    models = case["models"]
+    added = [i for i, m in enumerate(models) if m.get("place", 0) == 0]
+    def qname(i):
+        parts, cur = [], i
+        while cur is not None:
+            parts.append(str(cur) if models[cur].get("named", True) else "?")
+            cur = models[cur].get("parent")
+        return ".".join(reversed(parts))
+    if sum(pend.values()) == 0:
+        return "cmd %d: verdict %s although every sent message was processed" % (ff - 1, res)
+    if k == "dead":
+        listed = dict(x.split("=") for x in res[5:].split(","))
+        names = {qname(i): i for i in added}
+        for nm, n in listed.items():
+            if nm not in names:
+                return "cmd %d: Deadlock lists '%s', which is not a model of the simulation (%s)" % (ff - 1, nm, sorted(names))
+            i = names[nm]
+            if not (1 <= int(n) <= min(models[i]["cap"], pend[i])):
+                return "cmd %d: Deadlock reports %s messages for %s; capacity %d, sent-unprocessed %d" % (ff - 1, n, nm, models[i]["cap"], pend[i])
+        for i in added:
+            if pend[i] >= 1 and qname(i) not in listed:
+                # a message counted as pending may still be held by a blocked sender, but then the
+                # mailbox it is blocked on is full, hence non-empty, hence listed: pend[i] >= 1 with an
+                # empty mailbox is only possible if every such message is held by a blocked sender of
+                # a FULL mailbox i - a contradiction.
+                return "cmd %d: model %s has %d unprocessed messages but is not in the Deadlock report %s" % (ff - 1, qname(i), pend[i], res)
+    else:
+        n = int(res[5:])
+        bad = [qname(i) for i in added if pend[i] >= 1]
+        if bad:
+            return "cmd %d: MessageLoss(%d) although models of the simulation hold unprocessed messages: %s (signature C06/submodel-mailbox-not-observed when these are sub-models)" % (ff - 1, n, bad)
+        lost = sum(pend[i] for i in range(len(models)) if i not in added)
+        if n != lost:
+            return "cmd %d: MessageLoss(%d) but %d messages sit in mailboxes never added" % (ff - 1, n, lost)
+    return None
+
+
+def o_init(case, obs):
+    """C16: every added model (sub-models included) is initialised exactly once, during init, before
+    it handles anything; Context::name() is parent.child."""
+    models = case["models"]
+    def is_added(i):
+        cur = i
+        while cur is not None:
+            if models[cur].get("place", 0) != 0:
+                return False
+            cur = models[cur].get("parent")
+        return True
+    def qname(i):
+        parts, cur = [], i
+        while cur is not None:
+            parts.append(str(cur) if models[cur].get("named", True) else "?")
+            cur = models[cur].get("parent")
+        return ".".join(reversed(parts))
+    seen_init = set()
+    for j, (res, t, es) in enumerate(obs):
+        for e in es:
+            f = e.split(":")
+            if f[0] == "I":
+                m = int(f[1])
+                if j != 0:
+                    return "model %d initialised during command %d, not during SimInit::init" % (m, j - 1)
+                if m in seen_init:
+                    return "model %d initialised twice" % m
+                seen_init.add(m)
+            elif f[0] == "N":
+                m = int(f[1])
+                if f[2] != qname(m):
+                    return "model %d sees the name '%s' in its context, expected '%s'" % (m, f[2], qname(m))
+            elif f[0] in ("H", "P"):
+                if int(f[1]) not in seen_init:
+                    return "model %s handled %s before its init" % (f[1], e)
+    if kind(obs[0][0]) not in ("panic", "norecip"):
+        for i in range(len(models)):
+            if is_added(i) and i not in seen_init:
+                return "added model %d (%s) was never initialised" % (i, qname(i))
+    return None
